@@ -80,9 +80,251 @@ fn c01(tier: &str) -> PropDef {
     }
 }
 
+fn history_len(r: &mut Rng) -> usize {
+    match r.below(10) {
+        0..=5 => r.range(2, 6) as usize,
+        _ => r.range(6, 14) as usize,
+    }
+}
+
+/// writer history biased to contain make_read_only with unflushed entries in the log
+fn mro_history(r: &mut Rng, g: &mut G) -> Vec<Step> {
+    let (mix, _) = gen::pick_mix(r);
+    let n = r.range(1, 7) as usize;
+    let mut steps = gen::writer_history(r, g, n, mix);
+    steps.retain(|s| !matches!(s, Step::MakeReadOnly { .. }));
+    // choose the flush phase: 0..3 extra appends after an optional reopen
+    if r.chance(1, 2) {
+        steps.push(Step::Reopen { n: 0 });
+    }
+    for _ in 0..r.below(5) {
+        let blk = g.blk(r);
+        g.len += 1;
+        steps.push(Step::Append { n: 0, blk });
+    }
+    steps.push(Step::MakeReadOnly { n: 0 });
+    match r.below(4) {
+        0 => steps.push(Step::MakeReadOnly { n: 0 }),
+        1 => {
+            steps.push(Step::Reopen { n: 0 });
+            steps.push(Step::MakeReadOnly { n: 0 });
+        }
+        2 => {
+            let blk = g.blk(r);
+            steps.push(Step::Append { n: 0, blk });
+        }
+        _ => steps.push(Step::Reopen { n: 0 }),
+    }
+    steps
+}
+
+#[derive(Clone, Copy)]
+enum FaultKind {
+    Crash { tear: bool, double: bool },
+    Io,
+}
+
+fn fault_for(kind: FaultKind, node: u8, seed: u64, sample: u32) -> Fault {
+    match kind {
+        FaultKind::Crash { tear, double } => Fault::CrashAll { node, tear, suffix_seed: seed, double, sample },
+        FaultKind::Io => Fault::FailAll { node, suffix_seed: seed },
+    }
+}
+
+fn fault_families(prop: &'static str, kind: FaultKind, counts: [u64; 6], sweep_len: usize) -> Vec<Family> {
+    let [n_sweep, n_writer, n_replica, n_mro, n_large, n_replica_mro] = counts;
+    let mut v = vec![];
+    if n_sweep > 0 {
+        v.push(Family {
+            name: "writer-sweep",
+            count: gen::sweep_count(sweep_len).min(n_sweep),
+            make: Box::new(move |seed, idx| {
+                let (code, len) = gen::sweep_decode(idx, sweep_len);
+                let mut g = G::new(idx);
+                let steps = gen::sweep_trace(code, len, &mut g);
+                world_case(Cfg::basic(7), steps, fault_for(kind, 0, seed ^ idx, 0))
+            }),
+        });
+    }
+    v.push(Family {
+        name: "writer-seeded",
+        count: n_writer,
+        make: Box::new(move |seed, idx| {
+            let mut r = Rng::stream(seed, prop, idx, "workload");
+            let mut g = G::new(idx);
+            let (mix, _) = gen::pick_mix(&mut r);
+            let n = history_len(&mut r);
+            let steps = gen::writer_history(&mut r, &mut g, n, mix);
+            world_case(Cfg::basic(seed ^ idx), steps, fault_for(kind, 0, r.next(), 0))
+        }),
+    });
+    v.push(Family {
+        name: "replica-seeded",
+        count: n_replica,
+        make: Box::new(move |seed, idx| {
+            let mut r = Rng::stream(seed, prop, idx, "replica");
+            let mut g = G::new(idx);
+            let n = history_len(&mut r);
+            let steps = gen::replica_history(&mut r, &mut g, n, 1);
+            let mut cfg = Cfg::basic(seed ^ idx);
+            cfg.replicas = 1;
+            world_case(cfg, steps, fault_for(kind, 1, r.next(), 0))
+        }),
+    });
+    v.push(Family {
+        name: "make-read-only",
+        count: n_mro,
+        make: Box::new(move |seed, idx| {
+            let mut r = Rng::stream(seed, prop, idx, "mro");
+            let mut g = G::new(idx);
+            let steps = mro_history(&mut r, &mut g);
+            world_case(Cfg::basic(seed ^ idx), steps, fault_for(kind, 0, r.next(), 0))
+        }),
+    });
+    if n_replica_mro > 0 {
+        v.push(Family {
+            name: "replica-make-read-only",
+            count: n_replica_mro,
+            make: Box::new(move |seed, idx| {
+                let mut r = Rng::stream(seed, prop, idx, "replica-mro");
+                let mut g = G::new(idx);
+                let n = r.range(1, 5) as usize;
+                let mut steps = gen::replica_history(&mut r, &mut g, n, 1);
+                steps.push(Step::MakeReadOnly { n: 1 });
+                steps.push(Step::Reopen { n: 1 });
+                let mut cfg = Cfg::basic(seed ^ idx);
+                cfg.replicas = 1;
+                world_case(cfg, steps, fault_for(kind, 1, r.next(), 0))
+            }),
+        });
+    }
+    if n_large > 0 {
+        v.push(Family {
+            name: "large-sampled",
+            count: n_large,
+            make: Box::new(move |seed, idx| {
+                let mut r = Rng::stream(seed, prop, idx, "large");
+                let mut g = G::new(idx);
+                let mut steps = gen::large_history(&mut r, &mut g);
+                steps.truncate(5);
+                let mut cfg = Cfg::basic(seed ^ idx);
+                cfg.scan = ScanMode::Sampled;
+                world_case(cfg, steps, fault_for(kind, 0, r.next(), 48))
+            }),
+        });
+    }
+    v
+}
+
+const CRASH_ASSUME: [&str; 3] = [
+    "each storage operation is atomic and persisted in issue order (what the disk backend gives with its default per-operation sync_all); SimDisk therefore never reorders or drops acknowledged operations",
+    "torn writes are byte prefixes of the write in progress",
+    "SimDisk implements the RandomAccess contract exactly as the stock backends do",
+];
+
+fn c02(tier: &str) -> PropDef {
+    let quick = tier == "quick";
+    let counts = if quick { [819, 1200, 700, 300, 2, 0] } else { [7380, 50_000, 25_000, 10_000, 40, 0] };
+    PropDef {
+        level: "fault_enumeration",
+        rule: "case = one history (writer: sweep over the 9-letter alphabet and seeded 2-14 step traces incl. reopen and make_read_only; replica: honest proof applications with reopen steps) executed fault-free on a journalling SimDisk; then EVERY prefix of its mutating-storage-op journal is materialised, reopened with open(true) and fully scanned (length, byte_length, writeable, has/get of every index) and must equal the model snapshot before or after the interrupted call (strictly 'before' when no op of the call was persisted). A seeded third of the recovered cores then runs a 3-5 step suffix (with a reopen) under the C01 oracle; the thorough tier crashes a second time inside that suffix. distinct = distinct (history) hash; non-trivial = history with at least one mutating step (every one of them gets all its crash points).",
+        assumptions: CRASH_ASSUME.to_vec(),
+        families: fault_families("C02", FaultKind::Crash { tear: false, double: !quick }, counts, if quick { 3 } else { 4 }),
+    }
+}
+
+fn c07(tier: &str) -> PropDef {
+    let quick = tier == "quick";
+    let counts = if quick { [300, 300, 200, 100, 0, 0] } else { [7380, 12_000, 6_000, 3_000, 0, 0] };
+    PropDef {
+        level: "fault_enumeration",
+        rule: "same histories and oracle as C02, but at every crash point whose next journal op is a write of n bytes only a byte prefix j of it reaches the store: all j in 1..n-1 for n <= 64, otherwise j in {1,3,4,7,8,9,10,12,16,40..44,72..76,108..110, n-1,n-2,n-4,n-8,n-9,n-32,n-33,n-64,n-65, multiples of 512} plus 8 seeded cuts. Tearing lands over existing bytes (header slots are overwritten in place). distinct/non-trivial as for C02.",
+        assumptions: CRASH_ASSUME.to_vec(),
+        families: fault_families("C07", FaultKind::Crash { tear: true, double: false }, counts, if quick { 3 } else { 4 }),
+    }
+}
+
+fn c10(tier: &str) -> PropDef {
+    let quick = tier == "quick";
+    let counts = if quick { [819, 250, 150, 60, 0, 0] } else { [7380, 8_000, 4_000, 2_000, 0, 0] };
+    PropDef {
+        level: "fault_enumeration",
+        rule: "case = one history (as C02) with N storage operations in total on the subject's SimDisk (reads and length queries included); it is re-executed N times, each time with one injected I/O error (EIO) at storage op index k = 0..N-1. The public call that issued op k must return Err (not Ok, no panic, no hang); then the instance is dropped, the same storage reopened fault-free and fully scanned: the state must equal the model before or after that call; half of the recoveries then run a 3-5 step suffix under the C01 oracle. distinct/non-trivial as for C02.",
+        assumptions: vec![
+            "a failing storage operation has no effect on the store (the error is returned before anything is written)",
+            "SimDisk implements the RandomAccess contract exactly as the stock backends do",
+        ],
+        families: fault_families("C10", FaultKind::Io, counts, if quick { 3 } else { 4 }),
+    }
+}
+
+fn c03(tier: &str) -> PropDef {
+    let quick = tier == "quick";
+    let strict = if quick { 4000 } else { 120_000 };
+    let big = if quick { 40 } else { 2_000 };
+    let families = vec![
+        Family {
+            name: "strict",
+            count: strict,
+            make: Box::new(|seed, idx| {
+                let mut r = Rng::stream(seed, "C03", idx, "strict");
+                let mut g = G::new(idx);
+                let replicas = r.range(1, 3) as u8;
+                let n = r.range(4, 40) as usize;
+                let steps = gen::replica_history(&mut r, &mut g, n, replicas);
+                let mut cfg = Cfg::basic(seed ^ idx);
+                cfg.replicas = replicas;
+                world_case(cfg, steps, Fault::None)
+            }),
+        },
+        Family {
+            name: "strict-long-log",
+            count: big,
+            make: Box::new(|seed, idx| {
+                let mut r = Rng::stream(seed, "C03", idx, "long");
+                let mut g = G::new(idx);
+                let mut steps = vec![];
+                // several growth rounds on logs of up to 300 blocks
+                for _round in 0..r.range(1, 3) {
+                    let c = r.range(20, 120) as u32;
+                    steps.push(Step::Fill { n: 0, count: c, size: r.range(0, 9) as u32, tag0: g.next_tag });
+                    g.next_tag += c;
+                    g.len += c as u64;
+                    if r.chance(1, 3) {
+                        let (s, e) = g.clear_range(&mut r);
+                        steps.push(Step::Clear { n: 0, start: s, end: e.min(g.len) });
+                    }
+                    for _ in 0..r.range(5, 30) {
+                        match r.below(12) {
+                            0 => steps.push(Step::Reopen { n: 1 }),
+                            _ => steps.push(Step::Sync { to: 1, req: gen::rand_req(&mut r) }),
+                        }
+                    }
+                }
+                let mut cfg = Cfg::basic(seed ^ idx);
+                cfg.replicas = 1;
+                world_case(cfg, steps, Fault::None)
+            }),
+        },
+    ];
+    PropDef {
+        level: "exploration",
+        rule: "strict arm: one writer and 1-3 replicas on a fault-free transport with one outstanding request; each Sync step derives a well-formed request from the replica's CURRENT state (block or tree-node hash that exists on the writer, node count from the replica's own missing_nodes, upgrade from the replica's length when required or drawn, seek in the admitted combinations with the byte offset inside the proven subtree), the writer creates the proof, the replica must accept it (Ok(true)) and afterwards every held block must equal the writer's and (length, byte_length) must equal the writer's at proof creation; a cleared block must yield Ok(None). Replica reopen steps are interleaved. distinct = distinct trace hash; non-trivial = at least one mutating step and one reopen.",
+        assumptions: vec![
+            "the replicator deciding which request to send is harness code (stub of hypercore-protocol); messages travel as structured values, not bytes",
+            "Ed25519/BLAKE2b primitives are trusted",
+        ],
+        families,
+    }
+}
+
 pub fn prop_def(prop: &str, tier: &str) -> Option<PropDef> {
     match prop {
+        "C03" => Some(c03(tier)),
         "C01" => Some(c01(tier)),
+        "C02" => Some(c02(tier)),
+        "C07" => Some(c07(tier)),
+        "C10" => Some(c10(tier)),
         _ => None,
     }
 }
